@@ -195,6 +195,12 @@ structure Res where
   portCompared : Nat := 0
   /-- cursor stacks of the port on which `stackLinked` failed -/
   stackBad : Nat := 0
+  /-- `cursor_first_child_for_spec` evaluated on every goto_first_child_for_byte/point question: hypothesis
+  `ndeCur` holds and port = `cfcIdeal` / hypothesis fails / conclusion fails / `cfcIdeal` ≠ `FT.cursorFirstChildFor` -/
+  cfcChk : Nat := 0
+  cfcOut : Nat := 0
+  cfcBad : Nat := 0
+  cfcFlat : Nat := 0
   /-- the port's cursor positioned on node `cacheNode` by `gotoDescendant` -/
   cacheNode : Nat := u32max
   cache : Cursor := default
@@ -294,6 +300,24 @@ def judgeLine (c : Ctx) (root : Tree) (rootId : Nat) (r : Res) (line : String) :
         let r := if r.cacheNode == k then r else
           let cur := gotoDescendant c.lang k (Cursor.ofRoot root rootId)
           { r with cacheNode := k, cache := cur, stackBad := r.stackBad + (if stackLinked cur.stack && stackIdxOK cur.stack then 0 else 1) }
+        let r := if op == "cfcb" || op == "cfcp" then
+            let (gb, gp) := if op == "cfcb" then (natOf (args.headD "0"), POINT_ZERO) else (0, pt (args.headD "0") (args.getD 1 "0"))
+            let cur := r.cache
+            let f := topSize cur.stack
+            if !(ndeCur c.lang gb gp f cur.stack 0) then { r with cfcOut := r.cfcOut + 1 }
+            else
+              let ideal := cfcIdeal c.lang gb gp f cur.stack 0
+              let (pi, pc) := gotoFirstChildFor c.lang gb gp cur
+              let okPort : Bool := match ideal with
+                | some (idx, st) => pi == (idx : Int) && (pc.stack.map (·.id)) == (st.map (·.id))
+                | none => pi == -1 && (pc.stack.map (·.id)) == (cur.stack.map (·.id))
+              let okFlat : Bool := match ideal, c.ft.cursorFirstChildFor k gb gp with
+                | some (idx, st), some (i, j) => idx == i && (st.head?.map (·.id)) == some (c.ft.node j).info.id
+                | none, none => true
+                | _, _ => false
+              { r with cfcChk := r.cfcChk + (if okPort then 1 else 0), cfcBad := r.cfcBad + (if okPort then 0 else 1),
+                       cfcFlat := r.cfcFlat + (if okFlat then 0 else 1) }
+          else r
         let qs := if usesPrev op then quirkSets else [("none", Quirks.none)]
         let hit := qs.find? fun (_, q) => portAnswer c.lang q r.cache op args == some answer
         let r := { r with portCompared := r.portCompared + 1 }
